@@ -136,6 +136,53 @@ for nmol, with_modes in ((2, False), (3, False), (2, True), (3, True)):
         if done:
             break
 
+# ---- independence of the units active when parameters were given / the system was built; transition-dipole operator ---------------
+def make_units(units_build, units_param):
+    with qr.energy_units("1/cm"):
+        fac = qr.Manager().convert_energy_2_internal_u(1.0)
+    with qr.energy_units(units_param):
+        per = qr.Manager().convert_energy_2_current_u(fac)      # one 1/cm in the units used for the parameters
+        mols_ = [qr.Molecule([0.0, (12000.0 + 150 * k) * per]) for k in range(3)]
+        for k, m_ in enumerate(mols_):
+            m_.set_dipole(0, 1, [1.0 + 0.2 * k, 0.3 * k, -0.1])
+        ag_ = qr.Aggregate(mols_)
+        ag_.set_resonance_coupling(0, 1, 80.0 * per)
+        ag_.set_resonance_coupling(1, 2, -40.0 * per)
+        ag_.set_resonance_coupling(0, 2, 15.0 * per)
+    if units_build is None:
+        ag_.build(mult=2)
+    else:
+        with qr.energy_units(units_build):
+            ag_.build(mult=2)
+    with qr.energy_units("int"):
+        H_ = numpy.array(ag_.get_Hamiltonian().data)
+    return H_, numpy.array(ag_.get_TransitionDipoleMoment().data)
+
+
+try:
+    ref_ = None
+    for ub in (None, "1/cm", "eV", "THz"):
+        for up in ("1/cm", "eV", "THz"):
+            H_, D_ = make_units(ub, up)
+            if ref_ is None:
+                ref_ = (H_, D_)
+            if abs(H_ - ref_[0]).max() > 1e-9 * abs(ref_[0]).max() or abs(D_ - ref_[1]).max() > 1e-12:
+                bad.append("aggregate with parameters given in %s and built inside energy_units(%r): Hamiltonian / dipole operator differ "
+                           "from the one built in 1/cm (%.2e / %.2e)" % (up, ub, abs(H_ - ref_[0]).max() / abs(ref_[0]).max(), abs(D_ - ref_[1]).max()))
+    H_, D_ = ref_
+    sts_ = [()] + [(k,) for k in range(3)] + list(itertools.combinations(range(3), 2))
+    for a, sa in enumerate(sts_):
+        for b, sb in enumerate(sts_):
+            diff = set(sa) ^ set(sb)
+            want = numpy.zeros(3)
+            if abs(len(sa) - len(sb)) == 1 and len(diff) == 1:
+                k = list(diff)[0]
+                want = numpy.array([1.0 + 0.2 * k, 0.3 * k, -0.1])
+            if abs(D_[a, b] - want).max() > 1e-12:
+                bad.append("transition-dipole operator element between %s and %s is %s, expected %s" % (sa, sb, D_[a, b], want))
+except Exception as e_:      # noqa
+    bad.append("units / dipole-operator part raised %s: %s" % (type(e_).__name__, str(e_)[:120]))
+
 for b in bad[:10]:
     print("VIOLATED:", b)
 print("C03 oracle: %d violations" % len(bad))
